@@ -284,6 +284,39 @@ func IsConcrete(x interface{}) bool { return true }
 // CondSignals is only meaningful symbolically (number of sync.Cond.Signal/Broadcast calls so far).
 func CondSignals() int { return 0 }
 
+// OnBlock registers the harness's "other party" of a channel protocol. Symbolically the engine runs f
+// when the code under test would block; natively f is polled from a helper goroutine until OnBlock(nil)
+// (which waits for the helper to stop, so the harness may then read what f recorded).
+var (
+	peerStop chan struct{}
+	peerDone chan struct{}
+)
+
+func OnBlock(f func()) {
+	if peerStop != nil {
+		close(peerStop)
+		<-peerDone
+		peerStop = nil
+	}
+	if f == nil {
+		return
+	}
+	stop, done := make(chan struct{}), make(chan struct{})
+	peerStop, peerDone = stop, done
+	go func() {
+		defer close(done)
+		for {
+			select {
+			case <-stop:
+				return
+			default:
+			}
+			f()
+			time.Sleep(20 * time.Microsecond)
+		}
+	}()
+}
+
 // ExpectBlock: the code called next is expected to block forever. Natively a watchdog ends the process
 // quietly (nothing reproduced) if the harness is still stuck after 300ms; ExpectBlock("") disarms it.
 var blockTimer *time.Timer
